@@ -10,26 +10,38 @@ from pbt.netgen import q, LEVELS
 
 ID = "C18"
 LEVEL = "exploration"
-EXAMPLES = {"quick": 1000, "thorough": 20000}
+EXAMPLES = {"quick": 960, "thorough": 24000}
 SHRINK_S = {"quick": 25, "thorough": 90}
 RULE = ("Hypothesis draws a network recipe (1-3 voltage levels, <=12 buses; ext_grids with s_sc_max/min, rx_max/min; lines with "
         "endtemp_degree, parallel; 2W transformers with off-nominal rated voltages, taps, parallel; 3W transformers; reciprocal "
-        "impedances; gens with xdss/rdss/cos_phi/vn_kv/sn_mva; full-converter sgens with k; motors; loads/shunts; fused buses, "
-        "impedance switches, open switches, out-of-service parts, an unsupplied island) and calc_sc options (case max/min, fault 3ph/2ph, lv_tol_percent, ip/ith, kappa_method, topology, "
-        "r/x_fault_ohm, inverse_y, a subset of fault buses, a second net.sn_mva). Oracle per faulted bus: (i) ikss = c*Un/"
-        "(sqrt3*|rk+jxk|) (2ph: c*Un/(2|Zk|)) from the same row when no current source contributes, >= otherwise; (ii) rk+jxk = "
-        "driving-point impedance of pbt/c18_refsc.py (own element models in ohm, dense inverse) + fault impedance; (iii) 3ph: "
-        "skss = sqrt3*Un*ikss; (iv) ikss_2ph = sqrt3/2*ikss_3ph without current sources; (v) kappa = (ip/sqrt2 - ikss2)/ikss1 "
-        "in [1.02, 2], and equal to the documented formula for topology=radial / method B; (vi) the row of a bus is identical "
-        "for another net.sn_mva, the other inverse_y, and for all buses faulted in one call. Non-trivial = >=1 faulted bus "
-        "with finite results in a net whose supplied part contains a transformer or a generator; distinct by case hash.")
-ASSUMPTIONS = ["reference impedance tolerance 1e-8 relative, same-row relations 1e-9, invariances 1e-9 relative",
+        "impedances; gens with xdss/rdss/cos_phi/vn_kv/sn_mva; full-converter sgens with k; asynchronous sgens (lrc_pu, rx); "
+        "motors; loads/shunts; fused buses, impedance switches, open switches, out-of-service parts, an unsupplied island; "
+        "zero-sequence data with the documented vector groups for 1ph) and calc_sc options (case max/min, fault 3ph/2ph/1ph, "
+        "lv_tol_percent, ip/ith, kappa_method, topology, r/x_fault_ohm, inverse_y, a subset of fault buses or a scalar bus, a "
+        "second net.sn_mva). Oracle per faulted bus: (i) ikss = c*Un/(sqrt3*|rk+jxk|) (2ph: c*Un/(2|Zk|), 1ph: sqrt3*c*Un/"
+        "|2Zk+Zk0|) from the same row; with current sources (3ph) ikss = that + |1/(Zjj+Zf)*sum_m Zjm*I_kC,m| from the reference; "
+        "(ii) rk+jxk = driving-point impedance of pbt/c18_refsc.py (own element models in ohm incl. K_T, K_G, K_L, dense "
+        "inverse) + fault impedance; (iii) 3ph: skss = sqrt3*Un*ikss; (iv) ikss_2ph = sqrt3/2*ikss_3ph without current sources; "
+        "(v) kappa = (ip/sqrt2 - ikss2)/ikss1 in [1.02, 2], equal to 1.02+0.98exp(-3R/X) for topology=radial, to the clipped "
+        "1.15-fold for method B/meshed, and to the IEC method (c) value of the reference at 20 Hz where that is unambiguous; "
+        "(vi) the row of a bus is identical for another net.sn_mva, the other inverse_y, and for all buses (or only this bus) "
+        "faulted in one call; unsupplied buses report NaN. Non-trivial = >=1 faulted bus with finite results in a net whose "
+        "supplied part contains a transformer or a generator; distinct by case hash.")
+ASSUMPTIONS = ["reference impedance tolerance 1e-8 relative (measured agreement 1e-13 .. 5e-13 per element kind), same-row relations "
+               "1e-9, invariances 1e-9 relative (rk/xk and rk0/xk0 compared as complex numbers)",
                "rk_ohm/xk_ohm are taken to include r_fault_ohm/x_fault_ohm (they are the impedance ikss is computed with)",
-               "skss relation is checked for 3ph only (skss of a 2ph fault is not defined by the docs / IEC 60909)",
+               "skss relation is checked for 3ph only (skss of a 2ph fault is not defined by the docs / IEC 60909; pandapower "
+               "reports Un*ikss/sqrt3 there)",
                "an island without ext_grid/gen is unsupplied (motors alone do not energise it): results must be NaN",
                "the exact IEC method (c) peak factor is demanded only for nets with <=1 shunt-type source (ext_grid/gen/motor) per "
                "node and no ext_grid with R/X = 0; elsewhere pandapower reduces the sources of a bus before scaling X to 20 Hz "
                "(and drops other sources at a generator bus), which the property text (kappa in [1.02, 2]) does not exclude",
+               "impedance elements are generated reciprocal (rtf = rft): the kappa bound presupposes a passive reciprocal network",
+               "1ph: only the documented data (trafo vector groups Dyn/YNyn/Yzn/Yyn, no trafo3w, x0x in 0..1); the zero-sequence "
+               "impedance itself has no reference model, only the same-row relation and the invariances are checked",
+               "asynchronous sgens and 3W transformers with a winding below 1 kV restrict the options (case=max resp. "
+               "lv_tol_percent=10) because the documentation does not say what applies otherwise",
+               "wards/xwards, power-station units, DFIG sgens, branch results and the superposition method are not generated",
                "documented rejections (ValueError/UserWarning/NotImplementedError about missing data) are skipped"]
 
 # element kinds whose reference model has been validated against the unchanged tree (DESIGN.md C18: one at a time)
@@ -90,7 +102,11 @@ def _sc_data(draw, recipe, zero=False):
             e.update(vn_kv=vg, sn_mva=sn, xdss_pu=xd, cos_phi=draw(q(0.7, 1.0, nd=2)),
                      rdss_ohm=round(draw(q(0.005, 0.15, nd=3)) * xd * vg ** 2 / sn, 8))
         elif t == "sgen":
-            e.update(sn_mva=round(LEVELS[vn]["s"] * draw(q(0.1, 2.0, nd=2)), 5), k=draw(q(1.0, 1.5, nd=2)))
+            e.update(sn_mva=round(LEVELS[vn]["s"] * draw(q(0.1, 2.0, nd=2)), 5))
+            if draw(st.integers(0, 3)) == 0:     # asynchronous generator: an impedance, not a current source
+                e.update(generator_type="async", current_source=False, lrc_pu=draw(q(3.0, 8.0, nd=1)), rx=draw(q(0.05, 0.4, nd=2)))
+            else:
+                e.update(k=draw(q(1.0, 1.5, nd=2)))
         elif t == "motor":
             e.update(vn_kv=round(vn * draw(st.sampled_from([1.0, 1.0, 0.95, 1.05])), 6), lrc_pu=draw(q(3.0, 8.0, nd=1)),
                      rx=draw(q(0.1, 0.42, nd=2)), cos_phi_n=draw(q(0.7, 0.95, nd=2)),
@@ -99,6 +115,15 @@ def _sc_data(draw, recipe, zero=False):
     # "zk/multi-kg-gen-node"); in 4 of 5 such recipes the generators of a node get equal K_G data so that the search
     # continues behind that shape, the rest keeps hitting it
     node = netgen.nodes_of(recipe)
+    # an "async" sgen at a node with another voltage-source-type element: pandapower assigns (instead of adds) its admittance
+    # to the bus (known finding "zk/async-sgen-overwrites-bus-admittance"); avoided in 4 of 5 such recipes
+    others = {node[e["bus"]] for e in recipe["el"] if e["t"] in ("ext_grid", "gen", "motor")}
+    clash = [e for e in recipe["el"] if e["t"] == "sgen" and e.get("generator_type") == "async" and node[e["bus"]] in others]
+    if clash and draw(st.integers(0, 4)) != 0:
+        for e in clash:
+            for key in ("generator_type", "current_source", "lrc_pu", "rx"):
+                e.pop(key)
+            e["k"] = 1.2
     groups = {}
     for e in recipe["el"]:
         if e["t"] == "gen":
@@ -127,6 +152,8 @@ def _case(draw, tier):
            "tk_s": draw(st.sampled_from([1.0, 0.1, 3.0])),
            "inverse_y": draw(st.booleans()),
            "r_fault_ohm": 0.0, "x_fault_ohm": 0.0}
+    if any(e.get("generator_type") == "async" for e in recipe["el"]):
+        opt["case"] = "max"             # whether asynchronous generators feed minimum short-circuit currents is not documented
     if any(e["t"] == "trafo3w" and min(e["vn_mv_kv"], e["vn_lv_kv"]) < 1.0 for e in recipe["el"]):
         opt["lv_tol_percent"] = 10      # which c_max a 3W pair with a winding below 1 kV takes at 6 % is not documented
     if draw(st.integers(0, 3)) == 0:
@@ -137,7 +164,7 @@ def _case(draw, tier):
     else:
         buses = draw(st.lists(st.integers(0, nb - 1), min_size=1, max_size=min(nb, 4), unique=True))
     sn2 = draw(st.sampled_from([s for s in SN_ALT if s != recipe["sn_mva"]]))
-    return {"recipe": recipe, "opt": opt, "buses": buses, "sn2": sn2}
+    return {"recipe": recipe, "opt": opt, "buses": buses, "sn2": sn2, "scalar_bus": draw(st.booleans())}
 
 
 def strategy(tier):
@@ -266,6 +293,9 @@ def check(case):
     blab = maps["bus"]
     buses = None if case["buses"] is None else [blab[p] for p in case["buses"]]
     faulted = list(net.bus.index) if buses is None else buses
+    if buses is not None and len(buses) == 1 and case.get("scalar_bus"):
+        buses = buses[0]            # calc_sc(bus=<int>)
+        res.label("bus-argument-scalar")
     res.label("case:" + opt["case"], "fault:" + opt["fault"], "inverse_y:%s" % opt["inverse_y"],
               "buses:" + ("all" if buses is None else "subset"))
     zf = complex(opt["r_fault_ohm"], opt["x_fault_ohm"])
@@ -288,7 +318,8 @@ def check(case):
     except Exception as e:
         res.fail("1ph/floating-zero-seq-island" if floating else "crash/" + exc_sig(e), error=repr(e)[:300], opt=opt)
         return res
-    sgen_on = bool(len(net.sgen)) and bool((net.sgen.in_service & net.bus.in_service.reindex(net.sgen.bus).values).any())
+    sgen_on = bool(len(net.sgen)) and bool((net.sgen.in_service & net.sgen.current_source.astype(bool) &
+                                            net.bus.in_service.reindex(net.sgen.bus).values).any())
     cur_src = sgen_on and opt["case"] == "max"
     if cur_src:
         res.label("current-source")
@@ -301,6 +332,13 @@ def check(case):
         res.label("multi-gen-node")
     if multi_kg:
         res.label("multi-kg-gen-node")
+    shunts_at = {}
+    for kind, idx, where, z in ref.parts:
+        if not isinstance(where, tuple):
+            shunts_at.setdefault(where, set()).add(kind)
+    async_clash = any("async" in v and len(v) > 1 for v in shunts_at.values())
+    if async_clash:
+        res.label("async-sgen-shares-node")
     zc_ref = None
     if opt["ip"] and opt["kappa_method"] == "C" and opt["topology"] != "radial":
         refc = RefSC(net, case=opt["case"], lv_tol_percent=opt["lv_tol_percent"], peak=True)
@@ -339,7 +377,8 @@ def check(case):
         # (ii) Thevenin impedance
         zexp = zr + zf
         if abs(zk - zexp) > 1e-8 * abs(zexp):
-            sig = "zk/multi-kg-gen-node" if multi_kg else "zk/%s/%s" % (opt["case"], kinds_sig)
+            sig = "zk/multi-kg-gen-node" if multi_kg else ("zk/async-sgen-overwrites-bus-admittance" if async_clash else
+                                                           "zk/%s/%s" % (opt["case"], kinds_sig))
             res.fail(sig, bus=b, zk=zk, zk_ref=zexp, rel=abs(zk - zexp) / abs(zexp))
         # (i) ikss from the same row
         if one:
@@ -356,7 +395,8 @@ def check(case):
         elif not two and not one:
             ik2_ref = ref.ikss2(b, zf)
             if not _rel(row["ikss_ka"], ik1 + ik2_ref, 1e-8):
-                res.fail("zk/multi-kg-gen-node" if multi_kg else "ikss/current-source-share", bus=b, ikss=row["ikss_ka"], ikss1=ik1, ikss2_ref=ik2_ref)
+                res.fail("zk/multi-kg-gen-node" if multi_kg else ("zk/async-sgen-overwrites-bus-admittance" if async_clash else
+                                                                  "ikss/current-source-share"), bus=b, ikss=row["ikss_ka"], ikss1=ik1, ikss2_ref=ik2_ref)
         ik2 = max(0.0, row["ikss_ka"] - ik1) if cur_src else 0.0
         # (iii) skss
         if not two and not one and not _rel(row["skss_mw"], math.sqrt(3.0) * un * row["ikss_ka"], 1e-9):
@@ -381,7 +421,8 @@ def check(case):
                 elif not _rel(kappa, kc, 1e-7):
                     res.label("kappa-C-deviates-from-IEC(unchecked-shape)")
             if kexp is not None and not _rel(kappa, kexp, 1e-7):
-                sig = "zk/multi-kg-gen-node" if multi_kg and zc_ref is not None else "kappa/formula/%s-%s/%s" % (opt["kappa_method"], opt["topology"], kinds_sig)
+                sig = "zk/multi-kg-gen-node" if multi_kg and zc_ref is not None else \
+                    "zk/async-sgen-overwrites-bus-admittance" if async_clash and zc_ref is not None else "kappa/formula/%s-%s/%s" % (opt["kappa_method"], opt["topology"], kinds_sig)
                 res.fail(sig, bus=b, kappa=kappa, expected=kexp, ikss1=ik1, ikss2=ik2, row=row)
     if finite:
         res.label("finite-results")
@@ -392,7 +433,7 @@ def check(case):
         compare_rows(res, "inverse_y", base, other, faulted, opt)
         if buses is not None:
             other = run_sc(net, None, opt)
-            compare_rows(res, "bus-subset", base, other, faulted, opt, subset=buses)
+            compare_rows(res, "bus-subset", base, other, faulted, opt, subset=faulted)
         elif len(faulted) > 1:
             b0 = faulted[len(faulted) // 2]
             other = run_sc(net, [b0], opt)
